@@ -69,9 +69,22 @@ Definition wit_env : env := [(0, (1, 2))].
 Definition wit_s : state := mkState [(0, wit_feed)] [(0, 0)] [(0, [(1, (3, 1700000010)); (2, (4, 1700000020))])] [] [(0, tt)].
 Definition wit_s' : state := mkState [(0, wit_feed)] [(0, 0)] [(0, [(2, (3, 1700000010))])] [] [(0, tt)].
 
-(** a validated genesis whose feed refers to a context the new chain does not have makes InitGenesis panic *)
-Lemma oracle_import_total_refuted_lemma : exists e g, validate g = true /\ import e g = None.
-Proof. exists [], (export wit_env wit_s). split; vm_compute; reflexivity. Qed.
+(** the exported genesis of a reachable state makes InitGenesis panic when the new chain's service module
+    does not know the feed's request context (which is the case whenever the service genesis exported with
+    it could not be imported) *)
+Lemma oracle_import_total_refuted_lemma :
+  exists eA eB s, invb s = true /\ validate (export eA s) = true /\ import eB (export eA s) = None.
+Proof. exists wit_env, [], wit_s. repeat split; vm_compute; reflexivity. Qed.
+
+(** ... and does not when it knows them all *)
+Lemma oracle_import_total_partial_reachable_lemma eA eB s :
+  invb s = true -> (forall f, In f (feeds s) -> has (o_ctx (snd f)) eB = true) ->
+  import eB (export eA s) <> None.
+Proof.
+  intros Hinv Hctx. apply oracle_import_total_partial_lemma; [apply oracle_export_validates_lemma; exact Hinv|].
+  intros en Hin. unfold export in Hin. apply in_flat_map in Hin. destruct Hin as (f & Hf & Hen).
+  destruct (get (o_ctx (snd f)) eA) as [[st bc]|]; [|destruct Hen]. destruct Hen as [<-|[]]. simpl. apply Hctx. exact Hf.
+Qed.
 
 (** every exported value of a feed is stored under the same key: only the OLDEST survives *)
 Lemma oracle_export_fixpoint_refuted_lemma :
